@@ -5,7 +5,7 @@ from vlib import conclude, REPO
 import cdgen
 
 OBLIGATIONS = ['Cvise.C19.wf_query', 'Cvise.C19.wf_range', 'Cvise.C19.all_wf', 'Cvise.C19.names_nodup', 'Cvise.C19.protocol',
-               'Cvise.C19.exit_code_convention']
+               'Cvise.C19.exit_code_convention', 'Cvise.C19.manager_conventions']
 
 
 def guarded(sk, pred):
@@ -65,6 +65,12 @@ def run(ctx):
     conv = ex.conventions()
     if conv['invalid_counter'] is None or not conv['die_uses_errorcode'] or not conv['invalid_counter_on_max_instance']:
         ctx.report('out-of-range-exit-convention', f'conventions read: {conv}', {'kind': 'clang_delta-conv', 'conv': conv})
+    if not conv['check_counter_validity_ok']:
+        ctx.report('checkCounterValidity-lets-out-of-range-through', f'Transformation::checkCounterValidity mishandles {conv["check_counter_validity_gap"]} (ToCounter -1 = not given)',
+                   {'kind': 'clang_delta-conv', 'function': 'Transformation::checkCounterValidity', 'values': conv['check_counter_validity_gap']})
+    if not conv['query_returns_before_output']:
+        ctx.report('query-opens-the-output', 'TransformationManager::doTransformation opens the output (getOutStream) before the QueryInstanceOnly return: --query-instances with --output creates or truncates that file',
+                   {'kind': 'clang_delta-conv', 'function': 'TransformationManager::doTransformation', 'input': '--query-instances=<any> --output=<file>'})
     ctx.sample({'name': regs[0][0], 'class': regs[0][1], 'clauses': ''.join(ex.skeleton(regs[0][1]))})
     ctx.sample({'name': 'simplify-struct', 'clauses': ''.join(ex.skeleton('SimplifyStruct') or ['?'])})
     conclude(ctx, [], None)
